@@ -250,6 +250,55 @@ def connDo (o : OpSpec) (v : Nat) (topic : Bytes) (c : Conn) : Outcome × Conn :
       let (out, s') := opRead o v topic ⟨rest, sz⟩
       (out, { stream := s'.inp, nextId := c.nextId + 1, closed := out.isFail && o.closeOnErr })
 
+/-! ### the read lock (c.rlock)
+
+waitResponse takes the lock; it is released on the peek-error and ErrNoProgress exits, when yielding to another waiter,
+by (*Conn).do / ApiVersions after the body was read, and by Batch.close (ReadBatchWith hands it to the Batch).  WHICH of
+these exits release it is a regenerated fact (`Gen.ConnLegacy.lockFacts`, go/extract/connlegacy: syntactic check of every
+exit path); a leaked lock makes every later waiter block forever in `rlock.Lock()` (deadlines do not apply). -/
+structure LockFacts where
+  peekErr : Bool
+  noProgress : Bool
+  yield : Bool
+  take : Bool          -- the matching-id exit keeps the lock and hands it to the caller
+  doBody : Bool        -- (*Conn).do unlocks after the read closure, on every path
+  apiVersions : Bool
+  batchHandover : Bool -- ReadBatchWith puts the lock into the Batch it returns
+  batchClose : Bool    -- (*Batch).close unlocks on every path
+  deriving Repr, DecidableEq
+
+def LockFacts.all (f : LockFacts) : Bool :=
+  f.peekErr && f.noProgress && f.yield && f.take && f.doBody && f.apiVersions && f.batchHandover && f.batchClose
+
+inductive ExitPath where
+  | notSent | peekErr | noProgress | body
+  deriving Repr, DecidableEq
+
+/-- which exit of the exchange is taken from state c (`inflight`: the request was already written when the Conn was
+closed by another caller's failure, so the closed socket shows up as a peek error, not as a write error) -/
+def exitPath (inflight : Bool) (c : Conn) : ExitPath :=
+  if c.closed then (if inflight then .peekErr else .notSent)
+  else match waitResponse c with
+    | .error .eof => .peekErr
+    | .error _ => .noProgress
+    | .ok _ => .body
+
+def blocked : Outcome := .fail (.other "blocked forever in rlock.Lock()")
+
+/-- is the lock free again after the exchange? -/
+def released (lf : LockFacts) (viaDo : Bool) : ExitPath → Bool
+  | .notSent => true
+  | .peekErr => lf.peekErr
+  | .noProgress => lf.noProgress
+  | .body => lf.take && (if viaDo then lf.doBody else lf.apiVersions)
+
+/-- one exchange on a Conn with its read lock: `cl.2` = the lock is held by nobody who will ever release it -/
+def connDoL (lf : LockFacts) (inflight : Bool) (o : OpSpec) (v : Nat) (topic : Bytes) (cl : Conn × Bool) : Outcome × (Conn × Bool) :=
+  if cl.2 && exitPath inflight cl.1 ≠ .notSent then (blocked, cl)
+  else
+    let r := if inflight && cl.1.closed then (Outcome.fail .eof, { cl.1 with nextId := cl.1.nextId + 1 }) else connDo o v topic cl.1
+    (r.1, (r.2, cl.2 || !released lf o.closeOnErr (exitPath inflight cl.1)))
+
 /-! ### fetch: ReadBatchWith, Batch.readMessage until an error, Batch.Close -/
 
 /-- the message-set reader (message_reader.go) is abstract here: `first` = the `readHeader` call of
@@ -302,6 +351,15 @@ def connFetch (fixed : Bool) (v : Nat) (offset : Int) (b : Body) (c : Conn) : Ou
     | .ok (sz, rest) =>
       let (out, s') := fetchRead fixed v offset b ⟨rest, sz⟩
       (out, { stream := s'.inp, nextId := c.nextId + 1, closed := out.isFail })
+
+def connFetchL (lf : LockFacts) (fixed : Bool) (v : Nat) (offset : Int) (b : Body) (cl : Conn × Bool) : Outcome × (Conn × Bool) :=
+  if cl.2 && exitPath false cl.1 ≠ .notSent then (blocked, cl)
+  else
+    let r := connFetch fixed v offset b cl.1
+    let rel := match exitPath false cl.1 with
+      | .body => lf.take && lf.batchHandover && lf.batchClose
+      | p => released lf true p
+    (r.1, (r.2, cl.2 || !rel))
 
 /-- the reader the oracle uses for the message set: consumes the whole set when it is there (→ errShortRead at its
 end), fails with io.ErrUnexpectedEOF when the stream ends first. -/
